@@ -13,6 +13,11 @@ use std::sync::Mutex;
 use std::sync::atomic::{AtomicU64, Ordering};
 use std::time::Instant;
 
+/// text of a LeanString for messages; never trusts it to be valid UTF-8
+fn show(l: &LeanString) -> String {
+    String::from_utf8_lossy(l.as_bytes()).into_owned()
+}
+
 fn arg(args: &[String], name: &str) -> Option<String> {
     args.iter().position(|a| a == name).and_then(|i| args.get(i + 1).cloned())
 }
@@ -96,6 +101,9 @@ impl fmt::Write for Stack {
 /// A panic inside the code under test is a violation of the property being enumerated, never
 /// a crash of the engine.
 fn guarded(cx: &Ctx, what: &str, input: Value, f: impl FnOnce()) {
+    if lsverif::tracing() {
+        lsverif::trace(|| input.to_string());
+    }
     if let Err(p) = std::panic::catch_unwind(std::panic::AssertUnwindSafe(f)) {
         let msg = p.downcast_ref::<String>().cloned().or_else(|| p.downcast_ref::<&str>().map(|s| s.to_string())).unwrap_or_default();
         cx.fail(&format!("{what}/panicked"), format!("{what}: the call panicked: {msg}"), input);
@@ -116,6 +124,9 @@ fn int_ok<T: Display + ToLeanString + Copy + std::panic::RefUnwindSafe>(v: T) ->
 macro_rules! check_int {
     ($cx:expr, $t:ty, $v:expr, $cnt:expr) => {{
         let v: $t = $v;
+        if lsverif::tracing() {
+            lsverif::trace(|| json!({"type": stringify!($t), "value": v.to_string()}).to_string());
+        }
         $cnt += 1;
         if !int_ok(v) {
             let got = std::panic::catch_unwind(|| v.to_lean_string().as_str().to_string()).unwrap_or_else(|_| "<panicked>".into());
@@ -486,6 +497,9 @@ fn display_eq_inner<T: Display + ToLeanString>(cx: &Ctx, what: &str, v: &T, inpu
 }
 
 fn f32_ok(bits: u32) -> bool {
+    if lsverif::tracing() {
+        lsverif::trace(|| json!({"f32_bits": bits}).to_string());
+    }
     let f = f32::from_bits(bits);
     let l = match std::panic::catch_unwind(|| f.to_lean_string()) {
         Ok(l) => l,
@@ -497,6 +511,9 @@ fn f32_ok(bits: u32) -> bool {
     }
 }
 fn f64_ok(bits: u64) -> bool {
+    if lsverif::tracing() {
+        lsverif::trace(|| json!({"f64_bits": bits}).to_string());
+    }
     let f = f64::from_bits(bits);
     let l = match std::panic::catch_unwind(|| f.to_lean_string()) {
         Ok(l) => l,
@@ -775,44 +792,50 @@ const U16_ALPHA: [u16; 10] = [0x0041, 0x00E9, 0x20AC, 0xD7FF, 0xD800, 0xDBFF, 0x
 
 #[inline]
 fn utf8_case(cx: &Ctx, b: &[u8]) {
+    if lsverif::tracing() {
+        lsverif::trace(|| json!({"bytes": b}).to_string());
+    }
     guarded(cx, "utf8", json!({"bytes": b}), || utf8_case_inner(cx, b));
 }
 fn utf8_case_inner(cx: &Ctx, b: &[u8]) {
     let a = LeanString::from_utf8(b);
     let s = std::str::from_utf8(b);
     let ok = match (&a, &s) {
-        (Ok(x), Ok(y)) => x.as_str() == *y,
+        (Ok(x), Ok(y)) => x.as_bytes() == y.as_bytes(),
         (Err(_), Err(_)) => true,
         _ => false,
     };
     if !ok {
-        cx.fail("from_utf8/disagrees", format!("from_utf8({b:02x?}) = {:?}, std gives {:?}", a.as_ref().map(|x| x.as_str().to_string()), s), json!({"bytes": b}));
+        cx.fail("from_utf8/disagrees", format!("from_utf8({b:02x?}) = {:?}, std gives {:?}", a.as_ref().map(show), s), json!({"bytes": b}));
     }
     let l = LeanString::from_utf8_lossy(b);
     let sl = String::from_utf8_lossy(b);
-    if l.as_str() != &*sl {
-        cx.fail("from_utf8_lossy/disagrees", format!("from_utf8_lossy({b:02x?}) = {:?}, String::from_utf8_lossy gives {:?}", l.as_str(), sl), json!({"bytes": b}));
+    if l.as_bytes() != sl.as_bytes() {
+        cx.fail("from_utf8_lossy/disagrees", format!("from_utf8_lossy({b:02x?}) = {:?}, String::from_utf8_lossy gives {:?}", show(&l), sl), json!({"bytes": b}));
     }
 }
 #[inline]
 fn utf16_case(cx: &Ctx, u: &[u16]) {
+    if lsverif::tracing() {
+        lsverif::trace(|| json!({"u16": u}).to_string());
+    }
     guarded(cx, "utf16", json!({"u16": u}), || utf16_case_inner(cx, u));
 }
 fn utf16_case_inner(cx: &Ctx, u: &[u16]) {
     let a = LeanString::from_utf16(u);
     let s = String::from_utf16(u);
     let ok = match (&a, &s) {
-        (Ok(x), Ok(y)) => x.as_str() == y.as_str(),
+        (Ok(x), Ok(y)) => x.as_bytes() == y.as_bytes(),
         (Err(_), Err(_)) => true,
         _ => false,
     };
     if !ok {
-        cx.fail("from_utf16/disagrees", format!("from_utf16({u:04x?}) = {:?}, String gives {:?}", a.as_ref().map(|x| x.as_str().to_string()).ok(), s.as_ref().ok()), json!({"u16": u}));
+        cx.fail("from_utf16/disagrees", format!("from_utf16({u:04x?}) = {:?}, String gives {:?}", a.as_ref().map(show).ok(), s.as_ref().ok()), json!({"u16": u}));
     }
     let l = LeanString::from_utf16_lossy(u);
     let sl = String::from_utf16_lossy(u);
-    if l.as_str() != sl {
-        cx.fail("from_utf16_lossy/disagrees", format!("from_utf16_lossy({u:04x?}) = {:?}, String gives {sl:?}", l.as_str()), json!({"u16": u}));
+    if l.as_bytes() != sl.as_bytes() {
+        cx.fail("from_utf16_lossy/disagrees", format!("from_utf16_lossy({u:04x?}) = {:?}, String gives {sl:?}", show(&l)), json!({"u16": u}));
     }
 }
 
@@ -900,6 +923,67 @@ fn c16(cx: &Ctx, quick: bool) {
     }
     cx.domain(&format!("u16 sequences of length 0..={ulen} over {{BMP, surrogate boundaries}} + ASCII-prefixed variants"), total_all, true, &format!("{U16_ALPHA:04x?}; from_utf16 (acceptance, text), from_utf16_lossy (text)"));
     cx.class("utf16".into(), total_all);
+    // every Unicode scalar value (no character is special: BOM, NUL, noncharacters, ...) alone,
+    // in front of and behind ASCII, as UTF-8 and as UTF-16; every single u16 unit likewise
+    let cnt = AtomicU64::new(0);
+    par_ranges(cx, 0x110000, 1 << 12, |lo, hi| {
+        let mut c = 0u64;
+        for u in lo..hi {
+            if let Some(ch) = char::from_u32(u as u32) {
+                let mut b4 = [0u8; 4];
+                let enc = ch.encode_utf8(&mut b4).as_bytes().to_vec();
+                let mut u2 = [0u16; 2];
+                let enc16 = ch.encode_utf16(&mut u2).to_vec();
+                for shape in 0..4 {
+                    let (pre, post): (&[u8], &[u8]) = match shape {
+                        0 => (b"", b""),
+                        1 => (b"", b"ab"),
+                        2 => (b"ab", b""),
+                        _ => (b"0123456789abcd", b"z"),
+                    };
+                    let bytes: Vec<u8> = [pre, &enc, post].concat();
+                    utf8_case(cx, &bytes);
+                    let units: Vec<u16> = pre.iter().map(|&x| x as u16).chain(enc16.iter().copied()).chain(post.iter().map(|&x| x as u16)).collect();
+                    utf16_case(cx, &units);
+                    c += 2;
+                }
+            }
+            if u < 0x10000 {
+                for shape in 0..3 {
+                    let units: Vec<u16> = match shape {
+                        0 => vec![u as u16],
+                        1 => vec![u as u16, 0x61],
+                        _ => vec![0x61, u as u16],
+                    };
+                    utf16_case(cx, &units);
+                    c += 1;
+                }
+            }
+        }
+        cnt.fetch_add(c, Ordering::Relaxed);
+    });
+    cx.domain("every Unicode scalar value alone / before / after ASCII (UTF-8 and UTF-16), every single u16 unit alone / before / after ASCII", cnt.load(Ordering::Relaxed), true, "no character or unit is treated specially by the decoders");
+    cx.class("every-scalar".into(), cnt.load(Ordering::Relaxed));
+    // all 8-unit blocks over {ASCII, Latin-1, BMP} x every position of one non-ASCII unit: widening /
+    // narrowing fast paths work on blocks of units
+    let mut c8 = 0u64;
+    for len in [7usize, 8, 9, 15, 16, 17, 24, 32] {
+        for pos in 0..len {
+            for &unit in &[0x80u16, 0xE9, 0xFF, 0x100, 0x7FF, 0x800, 0xD7FF, 0xE000, 0xFFFF] {
+                let mut u = vec![0x61u16; len];
+                u[pos] = unit;
+                utf16_case(cx, &u);
+                let mut b: Vec<u8> = vec![b'a'; len];
+                let ch = char::from_u32(unit as u32).unwrap();
+                let mut tmp = [0u8; 4];
+                let e = ch.encode_utf8(&mut tmp).as_bytes();
+                b.splice(pos..pos + 1, e.iter().copied());
+                utf8_case(cx, &b);
+                c8 += 2;
+            }
+        }
+    }
+    cx.domain("blocks of 7..32 ASCII units with one Latin-1 / BMP unit at every position", c8, true, "block-wise fast paths");
     // long inputs: ASCII filler with every short class sequence placed around every candidate
     // block boundary L (all L up to 130, then powers of two and their neighbours)
     let mut bounds: Vec<usize> = (1..=130).collect();
@@ -1429,7 +1513,10 @@ fn main() {
     let tier = arg(&args, "--tier").unwrap_or_else(|| "quick".into());
     let out = arg(&args, "--out").unwrap_or_else(|| format!("/verif/evidence/{prop}.json"));
     let replay_dir = arg(&args, "--replay-dir").unwrap_or_else(|| "/verif/replays".into());
-    let threads: usize = arg(&args, "--threads").and_then(|s| s.parse().ok()).unwrap_or_else(|| std::thread::available_parallelism().map(|n| n.get()).unwrap_or(4));
+    if let Some(t) = arg(&args, "--trace-file") {
+        lsverif::enable_trace(&t);
+    }
+    let threads: usize = if lsverif::tracing() { 1 } else { arg(&args, "--threads").and_then(|s| s.parse().ok()).unwrap_or_else(|| std::thread::available_parallelism().map(|n| n.get()).unwrap_or(4)) };
     let seed: u64 = std::env::var("VERIF_SEED").ok().and_then(|s| s.parse().ok()).unwrap_or(0);
     let wall: f64 = arg(&args, "--wall").and_then(|s| s.parse().ok()).unwrap_or(if tier == "quick" { 120.0 } else { 3000.0 });
     let cx = Ctx { prop: prop.clone(), evals: AtomicU64::new(0), classes: Mutex::new(BTreeMap::new()), findings: Mutex::new(BTreeMap::new()), domains: Mutex::new(vec![]), samples: Mutex::new(vec![]), threads, start: Instant::now(), wall, capped: Mutex::new(vec![]) };
